@@ -189,6 +189,10 @@ def object_route(sig, fs, f_range, center, method, bk, th, fek, return_samples=T
         except Exception:
             pass
         _history_plot(bm, buf, fs)
+        try:
+            quiet(bm.recompute_edges, 0.0625)
+        except Exception:
+            pass
         buf[:] = sig
         quiet(bm.fit, buf, fs, f_range)
         return bm.df_features
@@ -219,10 +223,11 @@ def object_route(sig, fs, f_range, center, method, bk, th, fek, return_samples=T
             pass
         finally:
             _plt.close('all')
-    try:
-        quiet(bm.recompute_edges, 10.0)
-    except Exception:
-        pass
+    for red_ in (10.0, 0.0625):       # (a rejected reduction, then a small one that may succeed: whatever it lowers is lowered for THAT call only)
+        try:
+            quiet(bm.recompute_edges, red_)
+        except Exception:
+            pass
     bm.center_extrema = center
     bm.return_samples = return_samples
     if not ctor:
